@@ -277,6 +277,9 @@ func (s *scriptHealth) Check(ctx context.Context) bool {
 	case 's': // slow: blocks until its context expires, then reports unhealthy
 		<-ctx.Done()
 		return false
+	case 'S': // slow: blocks until its context expires, then reports healthy all the same
+		<-ctx.Done()
+		return true
 	}
 	return true
 }
@@ -591,6 +594,17 @@ func (d *Driver) apiCall(in *Inst, o *elObj, a *Action, ev *ApiEvt) {
 		_ = o.el.LeaderID()
 		_ = o.el.Token()
 		d.checkSnapshot(in, o, o.el.Status())
+	case AStopStart:
+		// an application that restarts its election: Start the moment its own Stop has returned
+		_ = o.el.Stop()
+		ctx, cancel := context.WithCancel(context.Background())
+		if err = o.el.Start(ctx); err == nil {
+			d.mu.Lock()
+			o.cancelStart = cancel
+			d.mu.Unlock()
+		} else {
+			cancel()
+		}
 	case ARegister:
 		o.el.OnPromote(func(ctx context.Context, token string) { freeCb.Add(1) })
 		o.el.OnDemote(func() { freeCb.Add(1) })
